@@ -65,6 +65,6 @@ class Engine:
     def describe(self, scenario: dict):
         return scenario
 
-    def shrink(self, scenario: dict):
+    def shrink(self, scenario: dict, violation: dict | None = None):
         """Yield strictly simpler candidate scenarios, most aggressive first."""
         return iter(())
